@@ -91,8 +91,9 @@ func genRDPkg(t *rapid.T, idx int) rdPkg {
 	p := rdPkg{Name: fmt.Sprintf("p%d", idx)}
 	nt := rapid.IntRange(3, 8).Draw(t, "ntypes")
 	fieldN := 0
-	var embeddable []string    // struct types of this package that may be embedded (declared earlier)
-	var genericsSoFar []string // generic struct types declared earlier
+	var embeddable []string      // struct types of this package that may be embedded (declared earlier)
+	var genericsSoFar []string   // generic struct types declared earlier
+	var opaque, empties []string // struct types without exported field / without any field declared earlier
 	for i := 0; i < nt; i++ {
 		exported := rapid.IntRange(0, 4).Draw(t, "exported") > 0
 		name := fmt.Sprintf("Type%d", i)
@@ -133,11 +134,24 @@ func genRDPkg(t *rapid.T, idx int) rdPkg {
 						// a field whose type instantiates a generic struct of the same package
 						f.Type = rapid.SampledFrom(genericsSoFar).Draw(t, "instof") + rapid.SampledFrom([]string{"[string]", "[int]", "[[]byte]"}).Draw(t, "instarg")
 					}
+					f.Listed = true
+					if rapid.IntRange(0, 3).Draw(t, "namedstructfield") == 0 {
+						// a field of a named struct type: listed whatever the fields of that type are, unless the struct is empty
+						pool := append([]string{"time.Time", "sync.Mutex", "*time.Time", "*sync.Mutex"}, opaque...)
+						pool = append(pool, embeddable...)
+						pool = append(pool, empties...)
+						f.Type = rapid.SampledFrom(pool).Draw(t, "namedstruct")
+						for _, e := range empties {
+							if f.Type == e {
+								f.Listed = false
+							}
+						}
+					}
 					if ty.Kind == "generic" && j == 0 {
 						f.Type = "T"
+						f.Listed = true
 					}
 					f.Doc = genDoc(t, f.Name, false)
-					f.Listed = true
 					hasExported = true
 					if !strings.Contains(f.Type, "[") && rapid.IntRange(0, 4).Draw(t, "multiname") == 0 {
 						f.Also = fmt.Sprintf("G%d", fieldN)
@@ -188,8 +202,13 @@ func genRDPkg(t *rapid.T, idx int) rdPkg {
 			}
 		}
 		if ty.Kind == "noexported" {
-			fieldN++
-			ty.Fields = []rdField{{Name: fmt.Sprintf("f%d", fieldN), Type: "int"}}
+			if rapid.IntRange(0, 2).Draw(t, "emptystruct") == 0 {
+				empties = append(empties, name) // type X struct{}
+			} else {
+				fieldN++
+				ty.Fields = []rdField{{Name: fmt.Sprintf("f%d", fieldN), Type: "int"}}
+				opaque = append(opaque, name)
+			}
 		}
 		p.Types = append(p.Types, ty)
 	}
@@ -218,6 +237,18 @@ func writeDoc(b *strings.Builder, indent string, doc []string) {
 func (p rdPkg) source() string {
 	b := &strings.Builder{}
 	fmt.Fprintf(b, "// +gengo:runtimedoc\npackage %s\n", p.Name)
+	for _, std := range []string{"sync", "time"} {
+		for _, ty := range p.Types {
+			used := false
+			for _, f := range ty.Fields {
+				used = used || strings.Contains(f.Type, std+".")
+			}
+			if used {
+				fmt.Fprintf(b, "\nimport %q\n", std)
+				break
+			}
+		}
+	}
 	for _, ty := range p.Types {
 		b.WriteString("\n")
 		writeDoc(b, "", ty.Doc)
